@@ -504,6 +504,8 @@ impl Store {
         }
 
         batch.commit()?;
+        #[cfg(xs_verif)]
+        crate::verif::point("remove.committed", id.to_u128());
         self.keyspace.persist(fjall::PersistMode::SyncAll)?;
         Ok(())
     }
